@@ -23,7 +23,13 @@ Only property statements live here; the proofs are references to `Lemmas.lean`. 
                       the coordinator; `is_well_formed` does not test it);
 * `HasReps m`         every scope that is the `lo` of a handle constraint or the value of an
                       argument has a representative (forced by finding F08);
-* `ExpressibleM/E`    local copies of C03's `Expressible` for the source MRS / the resulting EDS.
+* `ExpressibleM/E`    local copies of C03's `Expressible` for the source MRS / the resulting EDS
+                      (over `String`); the bridge to C03's own predicate and the composition with
+                      C03's round-trip theorems live in `Verif.Integration` (`mrs_eds_expressible`,
+                      `mrs_eds_native_roundtrip`, `mrs_eds_json_roundtrip`), which imports this file;
+* `AddlJ m J a`       contract on the mapping `a` returned by a user function: every edge is keyed
+                      by an EP id, ends at an EP id and satisfies `J`; `KeysIn m a`: every key of
+                      `a` is an EP id.
 
 Hypotheses: soundness (shape, edge justification, closedness) needs only `NoReserved m` and
 `m.hasCompleteIVs`; identifier uniqueness and the BV clause need the full intrinsic-variable
@@ -249,6 +255,90 @@ example : NoReserved dogBarks := by
   rcases hep with rfl | rfl | rfl <;>
     (simp only [EP.iv, dlookup, INTRINSIC_ROLE] at hv; simp at hv; subst hv; decide)
 
+/-! ## "… and yields … a top that is a node" -/
+
+/-- For EVERY configuration (also a user function): a conversion that raised no warning has a top
+(`_mrs_get_top` returns `None` only together with the warning 'unable to find a suitable TOP'). -/
+theorem fromMrs_top_of_no_warning (pm : PM) (uniq : Bool) (m : MRS) (e : EDS)
+    (h : fromMrs pm uniq m = .ok (e, [])) : ∃ t, e.top = some t := by
+  cases ht : e.top with
+  | none => exact absurd (fromMrs_top_none h ht) List.not_mem_nil
+  | some t => exact ⟨t, rfl⟩
+
+/-- The result of converting a well-formed MRS (`HasReps`: F08) HAS a top and it is a node, for
+`predicate_modifiers ∈ {False, True}` and both values of `unique_ids`. -/
+theorem fromMrs_top_exists (pm : PM) (uniq : Bool) (m : MRS) (hwf : m.isWellFormed = true)
+    (hnr : NoReserved m) (hhr : HasReps m) (hpm : pm = .off ∨ pm = .std) :
+    ∃ e t, fromMrs pm uniq m = .ok (e, []) ∧ e.top = some t ∧ t ∈ e.nodes.map (·.id) := by
+  obtain ⟨e, he⟩ := fromMrs_total pm uniq m hwf hnr hhr hpm
+  obtain ⟨t, ht⟩ := fromMrs_top_of_no_warning pm uniq m e he
+  exact ⟨e, t, he, ht, fromMrs_top_is_node pm uniq m hnr
+    (completeIVs_of_ivProperty (wf_parts hwf).1) hpm e [] he t ht⟩
+
+/-! ## a user-supplied `predicate_modifiers` function
+
+The function is represented by the mapping `a` it returns (`PM.custom a`).  The weakest contracts
+under which the clauses hold:
+* soundness / closedness: `AddlJ m J a` — every returned edge is keyed by an EP id, ends at an EP id
+  and satisfies `J` on the two predications (`J := fun _ _ _ => True` for closedness alone;
+  `J := PMJust E` is what the standard function guarantees);
+* the BV clause: no returned edge has the role `BV`;
+* totality: additionally every KEY of the mapping is an EP id (`KeysIn`; `e[id]` raises otherwise,
+  also for an empty edge map).
+Shape and identifier uniqueness (`fromMrs_shape`, `fromMrs_ids_unique`) need no contract. -/
+
+/-- Edge justification, closedness and top for a user function under the contract `AddlJ m J a`. -/
+theorem fromMrs_custom_edges_justified (a : EdgeMap) (J : Pred → Role → Pred → Prop) (uniq : Bool)
+    (m : MRS) (hnr : NoReserved m) (hc : m.hasCompleteIVs = true) (ha : AddlJ m J a)
+    (e : EDS) (w : List Warn) (h : fromMrs (.custom a) uniq m = .ok (e, w)) :
+    Justified m (fun s r t => (BVJust s r t ∨ ArgJust m s r t) ∨ J s r t) e.nodes ∧
+    (∀ n ∈ e.nodes, ∀ rt ∈ n.edges, rt.2 ∈ e.nodes.map (·.id)) ∧
+    (∀ t, e.top = some t → t ∈ e.nodes.map (·.id)) := by
+  have hadd : ∀ reps nodes addl, RepsOK m reps → addlOf (.custom a) m reps nodes = .ok addl →
+      AddlJ m J addl := by
+    intro _ _ addl _ h4
+    simp only [addlOf, Except.ok.injEq] at h4
+    rw [← h4]; exact ha
+  obtain ⟨hJ, hT⟩ := fromMrs_spec_gen (ids_nodup hnr hc) hnr hadd h
+  have hN := fromMrs_shape_aux hnr h
+  refine ⟨hJ, ?_, ?_⟩
+  · intro n hn rt hrt
+    obtain ⟨p, _, hz, _⟩ := hN.mem_left n hn
+    obtain ⟨qn, hqn, hid, _⟩ := hJ (p, n) hz rt hrt
+    exact List.mem_map.2 ⟨qn.2, (List.of_mem_zip hqn).2, hid⟩
+  · intro t ht
+    obtain ⟨pn, hpn, hid⟩ := hT t ht
+    exact List.mem_map.2 ⟨pn.2, (List.of_mem_zip hpn).2, hid⟩
+
+/-- The BV clause for a user function that returns no `BV` edge. -/
+theorem bv_exactly_one_custom (a : EdgeMap) (uniq : Bool) (m : MRS) (hiv : m.hasIVProperty = true)
+    (hnr : NoReserved m) (huq : UniqueQuant m)
+    (ha : ∀ k es, (k, es) ∈ a → ∀ rt ∈ es, rt.1 ≠ BV_ROLE)
+    (e : EDS) (w : List Warn) (h : fromMrs (.custom a) uniq m = .ok (e, w))
+    (qn pn : Pred × ENode) (hqn : qn ∈ m.preds.zip e.nodes) (hpn : pn ∈ m.preds.zip e.nodes)
+    (hqq : qn.1.2.isQuantifier = true) (hpq : pn.1.2.isQuantifier = false)
+    (v : Var) (hqv : qn.1.2.iv = some v) (hpv : pn.1.2.iv = some v) :
+    qn.2.edges.filter (fun rt => rt.1 == BV_ROLE) = [(BV_ROLE, pn.2.id)] := by
+  refine bv_edge_gen hiv hnr huq ?_ h hqn hpn hqq hpq hqv hpv
+  intro _ _ addl _ h4
+  simp only [addlOf, Except.ok.injEq] at h4
+  rw [← h4]; exact ha
+
+/-- Totality, absence of warnings and existence of the top for a user function whose mapping has
+EP ids as keys and edges ending at EP ids. -/
+theorem fromMrs_total_custom (a : EdgeMap) (uniq : Bool) (m : MRS) (hwf : m.isWellFormed = true)
+    (hnr : NoReserved m) (hhr : HasReps m) (hk : KeysIn m a)
+    (ha : AddlJ m (fun _ _ _ => True) a) :
+    ∃ e t, fromMrs (.custom a) uniq m = .ok (e, []) ∧ e.top = some t := by
+  obtain ⟨e, he⟩ := fromMrs_total_gen (pm := .custom a) (uniq := uniq) hwf hnr hhr
+    (fun _ _ _ _ _ => ⟨a, rfl, hk⟩)
+    (by
+      intro _ _ addl _ h4
+      simp only [addlOf, Except.ok.injEq] at h4
+      rw [← h4]; exact ha)
+  obtain ⟨t, ht⟩ := fromMrs_top_of_no_warning _ uniq m e he
+  exact ⟨e, t, he, ht⟩
+
 /-! ## "the result survives C03 serialization" -/
 
 /-- The converted graph satisfies the precondition of the C03 round-trip theorems
@@ -288,6 +378,14 @@ theorem f08_not_hasReps : ¬ HasReps f08Witness := by
   have := fromMrs_total_cex_F08.2.1
   rw [he] at this
   simp [raisesIndexError] at this
+
+set_option maxRecDepth 100000 in
+/-- The key contract is needed: a user function returning a key that is no EP id makes the
+conversion raise `KeyError` (`e[id]`), even with an empty edge map. -/
+theorem fromMrs_total_custom_cex :
+    (match fromMrs (.custom [(⟨"z", 9⟩, [])]) false dogBarks with
+     | .error .keyError => true
+     | _ => false) = true := by decide
 
 /-! ## Pins: the constants of the anchored code that the hand-written model mirrors
 
